@@ -399,7 +399,7 @@ func TestLinearizable(t *testing.T) {
 	nHist := r.Pick(15000, 300000)
 	var ovl [nKinds][nKinds]int64
 	var ovlMu sync.Mutex
-	var withOverlap, evictions, okCount, unknown atomic.Int64
+	var withOverlap, evictions, okCount, unknown, quiescentProbes atomic.Int64
 	// histories run one after another (each is itself concurrent); checking is done in parallel afterwards
 	type job struct {
 		h    *history
@@ -492,6 +492,32 @@ func TestLinearizable(t *testing.T) {
 				r.Violation(fmt.Sprintf("hitmiss:%s:%d", cf.Name, i), fmt.Sprintf("config %s: Hit/Miss are %d/%d after %d non-nil and %d nil Gets", cf.Name, snap.Hit, snap.Miss, hits, misses), map[string]any{"config": cf})
 			}
 		}
+		// the quiescent cache behaves like a sequential one again: a Set of a new key is stored exactly when the
+		// configuration and the space left (as Stats reports it) admit it, and a following Get sees it
+		{
+			st := h.c.Stats()
+			pk := []byte("zq")
+			pv := []byte(mkVal("zq", 0, 0))
+			add := uint(len(pk) + len(pv))
+			unl := func(x uint) uint {
+				if x == 0 {
+					return ^uint(0)
+				}
+				return x
+			}
+			maxSize, maxCount := unl(cf.MaxSize), unl(cf.MaxCount)
+			elem := min(unl(cf.MaxElem), maxSize)
+			want := add <= elem
+			if !cf.LRU {
+				want = want && uint(st.Size)+add <= maxSize && uint(st.Count) < maxCount
+			}
+			existed := h.c.Set(pk, pv)
+			got := h.c.Get(pk)
+			if existed || (got != nil) != want || (got != nil && string(got) != string(pv)) {
+				r.Violation(fmt.Sprintf("quiescent-set:%s:%d", cf.Name, i), fmt.Sprintf("config %s after a concurrent history of %d workers has ended: Stats()=%+v, then Set(new key \"zq\", %d bytes)=%v and Get(\"zq\")=%q; a sequential cache in that state stores it: %v", cf.Name, p.workers, st, len(pv), existed, got, want), map[string]any{"config": cf})
+			}
+			quiescentProbes.Add(1)
+		}
 		if i < 3 {
 			r.Sample(map[string]any{"config": cf.Name, "workers": p.workers, "keys": p.keys, "history_of_k0": h.dump("k0")})
 		}
@@ -502,6 +528,7 @@ func TestLinearizable(t *testing.T) {
 	}
 	checkBatch()
 	r.Count("histories", int64(nHist))
+	r.Count("quiescent_set_probes", quiescentProbes.Load())
 	r.Count("histories_with_overlapping_ops_on_a_key", withOverlap.Load())
 	r.Count("evictions_observed", evictions.Load())
 	r.Count("porcupine_ok", okCount.Load())
